@@ -271,6 +271,23 @@ def handle (line : String) : String :=
             else storageRun storage cap 0xA5 (fun F s0 memOf =>
               let r := serializeWith (CrcSer alg nbytes F) (s0, alg.init) v; fin r.2 (memOf r.1.1))) "bad-op"
       | _, _ => "bad-op"
+    | "collectcap", .atom framing :: .atom storage :: .atom cap :: chunks =>
+      match cap.toNat?, chunks.mapM (fun c => match c with | .atom h => bytesOfHex h | _ => none) with
+      | some cap, some pieces =>
+        let fin (r : R (List Byte)) (mem : List Byte) : String :=
+          match r with
+          | .ok b => s!"ok {hexOfBytes b} mem={hexOfBytes mem}"
+          | .error e => s!"err {e.name} mem={hexOfBytes mem}"
+        if framing == "plain" then
+          storageRun storage cap 0xA5 (fun F s0 memOf => let r := collectStrWith F s0 pieces; fin r.2 (memOf r.1))
+        else if framing == "cobs" then
+          storageRun storage cap 0xA5 (fun F s0 memOf =>
+            let r := cobsSerialize F s0 (fun st => collectStrWith (Cobs F) st pieces); fin r.2 (memOf r.1))
+        else
+          withAlg framing (fun _ alg nbytes =>
+            storageRun storage cap 0xA5 (fun F s0 memOf =>
+              let r := collectStrWith (CrcSer alg nbytes F) (s0, alg.init) pieces; fin r.2 (memOf r.1.1))) "bad-op"
+      | _, _ => "bad-op"
     | "cobsenc", [.atom storage, .atom cap, .atom h] =>
       match cap.toNat?, bytesOfHex h with
       | some cap, some m =>
